@@ -1,0 +1,22 @@
+package nodes
+
+// Helpers for the verifhook.JoinEvent call sites in the join loops (no-ops without the build tag verif).
+
+func verifJoinKind(ok bool, metadata bool, err error) string {
+	switch {
+	case !ok:
+		return "close"
+	case err != nil:
+		return "error"
+	case metadata:
+		return "watermark"
+	}
+	return "record"
+}
+
+func verifJoinSide(left bool) string {
+	if left {
+		return "left"
+	}
+	return "right"
+}
